@@ -4,6 +4,9 @@ package main
 // specification-made frames (C04), ownership of parsed messages (C12).
 
 import (
+	"bufio"
+	"encoding/json"
+	"os"
 	"reflect"
 
 	"github.com/contiv/libOpenflow/common"
@@ -173,7 +176,12 @@ func parseCmd(args []string) error {
 	if err != nil {
 		return err
 	}
-	return eachLine(in, out, func(n int, sc J) J {
+	// every parsed message is kept until the whole corpus has been parsed and is then observed once more ("final"): messages parsed
+	// later must not change it (state shared between parsed values, e.g. a template whose buffers every new message points into)
+	var finals []func()
+	var rows []J
+	err = eachLine(in, os.DevNull, func(n int, sc J) J {
+		rows = append(rows, sc)
 		obs := J{}
 		sc["obs"] = obs
 		frame := toBytes(sc["frame"])
@@ -224,6 +232,29 @@ func parseCmd(args []string) error {
 			}
 			obs["after"] = after
 		}
+		if perr == nil {
+			finals = append(finals, func() { obs["final"] = snap() })
+		}
 		return sc
 	})
+	if err != nil {
+		return err
+	}
+	for _, f := range finals {
+		f()
+	}
+	fo, err := os.Create(out)
+	if err != nil {
+		return err
+	}
+	defer fo.Close()
+	w := bufio.NewWriterSize(fo, 1<<20)
+	defer w.Flush()
+	enc := json.NewEncoder(w)
+	for _, sc := range rows {
+		if e := enc.Encode(sc); e != nil {
+			return e
+		}
+	}
+	return nil
 }
